@@ -176,11 +176,11 @@ def opCorr (j : Json) : Except String Json := do
   | "rdiv_num" => do
       let y ← num
       if y == 0 then pure (corrResult (.error .divZero)) else pure (corrResult (.ok (a.mapCells (fun x => Float.pow (x / y) (-1)))))
-  | "pow_num" => do let y ← num; pure (corrResult (.ok (a.mapCells (fun x => Float.pow x y))))
+  | "pow_num" => do let y ← num; pure (corrResult (Corr.applyFunc (fun x => Float.pow x y) a))
   | "neg" => pure (corrResult (.ok (a.mapCells (fun x => -1.0 * x))))
   | "abs" => pure (corrResult (.ok (a.mapCells Float.abs)))
-  | "sqrt" => pure (corrResult (.ok (a.mapCells (fun x => Float.pow x 0.5))))
-  | "log" => pure (corrResult (.ok (a.mapCells Float.log)))
+  | "sqrt" => pure (corrResult (Corr.applyFunc (fun x => Float.pow x 0.5) a))
+  | "log" => pure (corrResult (Corr.applyFunc Float.log a))
   | "exp" => pure (corrResult (.ok (a.mapCells Float.exp)))
   | "ctor_matrix" => do
       let rows : List Json ← get j "cs"
